@@ -192,12 +192,16 @@ def _project(seed):
                 f = fresh('f')
                 lines.append(f'def {f}(): pass')
                 mine.append(('func', f))
+        pv = None
         if rnd.random() < 0.4:
-            # a private definition: a star import of this module does not bind it
-            lines.append(f'class {fresh("_pv")}:\n    pass')
+            # a private definition: a star import of this module does not bind it (unless __all__ lists it)
+            pv = fresh('_pv')
+            lines.append(f'class {pv}:\n    pass')
         if rnd.random() < 0.3:
             # __all__ listing some (possibly none) of the module's own definitions: a star import binds exactly those
             chosen = [o for (_k, o) in mine if rnd.random() < 0.5]
+            if pv is not None and rnd.random() < 0.6:
+                chosen.append(pv)           # __all__ decides, not the underscore
             lines.append('__all__ = [' + ', '.join(repr(o) for o in chosen) + ']')
             star_all[name] = chosen
         defs.setdefault(name, []).extend(mine)
@@ -304,7 +308,9 @@ def _check(case):
                     # `import <defining module> as <alias>` and the name <alias>.<object>
                     via_alias = name.count('.') == 1 and name.split('.')[1] == last and \
                         any(l.strip() == f'import {tmod} as {first}' for l in text.splitlines())
-                    if direct or via_alias:
+                    # `from <defining module> import *` standing in this scope's text (Python binds the name: it is in the run-time namespace)
+                    direct_star = '.' not in name and name == last and any(l.strip() == f'from {tmod} import *' for l in text.splitlines())
+                    if direct or via_alias or direct_star:
                         fails.append({'observed': f'in {scope}, {name!r} (Python: {target}) does not resolve', 'required': 'always resolves',
                                       'class': 'unresolved'})
         # ... or not at all: a definition of the project that a module namespace does not bind at run time must not resolve there
